@@ -26,9 +26,9 @@ KDF_CAP = 80
 
 def shards(tier: str, seed: int):
     out = []
-    for h in HASHES:
-        for ks in (0, 1):
-            out.append(["sub", h, ks])
+    for ks in (0, 1):
+        for part in range(4):
+            out.append(["sub", ks, part])  # every shard walks all 4 hashes with the same root key / SD / L0 (state must not leak between hashes)
     if tier == "thorough":
         for l1e in range(32):
             out.append(["full", l1e])
@@ -216,11 +216,14 @@ def run_shard(shard, tier, seed, acc) -> None:
         api_shard(acc, seed, shard[1], shard[2])
         return
     if shard[0] == "sub":
-        _, h, ks = shard
-        rk, sd, l0 = keyset(seed, ks, h)
+        _, ks, part = shard
         pos = [(a, b) for a in SUB for b in SUB]
-        sweep(acc, rk, sd, l0, pos, pos)
-        acc.sample({"hash": h, "L0": l0, "envelope": [30, 31, "l2-absent"], "request": [29, 31], "covered": True})
+        mine = [p_ for i, p_ in enumerate(pos) if i % 4 == part]
+        for rnd in range(2):
+            for h in (HASHES if rnd == 0 else HASHES[::-1]):
+                rk, sd, l0 = keyset(seed, ks, h)
+                sweep(acc, rk, sd, l0, mine[rnd::2], pos)
+        acc.sample({"hashes": HASHES, "L0": l0, "envelope": [30, 31, "l2-absent"], "request": [29, 31], "covered": True})
     else:
         _, l1e = shard
         rk, sd, l0 = keyset(seed, 0, "SHA512")
